@@ -65,22 +65,39 @@ type refCase struct {
 	ListOK   bool     `json:"list_ok"`
 }
 
+// clean reports whether no infrastructure error of the embedded etcd occurred since the rig was built
+func (r *refRig) clean() bool {
+	if infraErrs.Load() != r.infra0 {
+		infraDropped.Add(1)
+		r.t.Logf("case dropped: infrastructure error of the embedded etcd (%d dropped so far)", infraDropped.Load())
+		return false
+	}
+	return true
+}
+
+func (r *refRig) emit(out *hx.Out, c *refCase) {
+	if r.clean() {
+		out.Emit(c)
+	}
+}
+
 type refRig struct {
-	t    *testing.T
-	cl   *ckit.Cluster
-	g    *gate
-	tag  string
-	wids map[int]string // model workload number -> real id
-	next int
+	infra0 int64
+	t      *testing.T
+	cl     *ckit.Cluster
+	g      *gate
+	tag    string
+	wids   map[int]string // model workload number -> real id
+	next   int
 }
 
 // the tag is a PREFIX so that prefix relations between names (n1 / n10) survive
 func (r *refRig) name(s string) string { return r.tag + s }
 
 func newRefRig(t *testing.T, tag string) *refRig {
-	cl := ckit.NewCluster(t, ckit.Options{LockTimeout: 3 * time.Second})
+	cl := newCluster(t, ckit.Options{LockTimeout: 3 * time.Second})
 	cl.Wipe()
-	r := &refRig{t: t, cl: cl, tag: tag, wids: map[int]string{}, next: 1}
+	r := &refRig{t: t, cl: cl, tag: tag, wids: map[int]string{}, next: 1, infra0: infraErrs.Load()}
 	r.g = installGate(cl)
 	return r
 }
@@ -367,7 +384,11 @@ func genRef(t *testing.T, out *hx.Out, budget int) {
 				}
 				c.Impl = rig.state()
 				c.ListOK = rig.listOK()
-				emit(c)
+				if rig.clean() {
+					if rig.clean() {
+						emit(c)
+					}
+				}
 				rig.cl.Close()
 			}
 		}
@@ -384,7 +405,7 @@ func genRef(t *testing.T, out *hx.Out, budget int) {
 			c.OKA = rig.run(a)
 			c.Impl = rig.state()
 			c.ListOK = rig.listOK()
-			out.Emit(c) // not counted against the budget of the schedules
+			rig.emit(out, c) // not counted against the budget of the schedules
 			rig.cl.Close()
 		}
 	}
@@ -421,7 +442,7 @@ func genRef(t *testing.T, out *hx.Out, budget int) {
 			rig.g.disarm()
 			c.Impl = rig.state()
 			c.ListOK = rig.listOK()
-			out.Emit(c)
+			rig.emit(out, c)
 			rig.cl.Close()
 		}
 	}
@@ -444,7 +465,7 @@ func genRef(t *testing.T, out *hx.Out, budget int) {
 		rig.threeThreads(c)
 		c.Impl = rig.state()
 		c.ListOK = rig.listOK()
-		out.Emit(c)
+		rig.emit(out, c)
 		rig.cl.Close()
 	}
 	genHist(t, out, budget/8+3)
@@ -467,7 +488,9 @@ func genRef(t *testing.T, out *hx.Out, budget int) {
 			rig.sched(c)
 			c.Impl = rig.state()
 			c.ListOK = rig.listOK()
-			emit(c)
+			if rig.clean() {
+				emit(c)
+			}
 			rig.cl.Close()
 		}
 	}
@@ -555,7 +578,7 @@ func runHist(t *testing.T, out *hx.Out, ops []opJ, id, tag string) {
 		c.Impl = c.States[len(c.States)-1]
 	}
 	c.ListOK = true
-	out.Emit(c)
+	rig.emit(out, c)
 }
 
 func replayRef(t *testing.T, out *hx.Out, path string) {
